@@ -1,4 +1,376 @@
+import Iauthd.Conf.Model
+import Iauthd.Conf.Judge
 import Drv.Util
-def main (_args : List String) : IO UInt32 := do
-  IO.eprintln "driver not implemented yet"
-  return 2
+/-
+  drv_conf model <variant>   < ops          one record per op line (same syntax as harness/h_conf.c)
+  drv_conf judge <C14|C15|C16> < lines      lines are `<op> => <implementation record>`; prints the
+                                            implementation record when the property admits it, else
+                                            `expected …`
+  drv_conf render            < lines        `<doc> <tape>` -> hex of `render doc (layoutOfTape tape doc)`
+  variant: `pinned` | `fixed`, optionally followed by `,+f9` / `,-f10` … / `,+vol`
+-/
+open Iauthd Iauthd.Conf
+
+namespace Drv.ConfDrv
+
+/-! ### text encodings -/
+
+def hx (b : Bytes) : String := Bytes.toHex b
+def hxo (b : Option Bytes) : String := Bytes.toHexOpt b
+
+def parsePath (s : String) : List Bytes := (s.splitOn "/").map Bytes.ofHex
+
+def parseVariant (s : String) : Variant × Bool :=
+  let parts := s.splitOn ","
+  let base : Variant × Bool := if parts.head? == some "fixed" then (Variant.fixed, true) else (Variant.pinned, false)
+  parts.drop 1 |>.foldl (fun (v, sv) p =>
+    let on := p.startsWith "+"
+    match (p.drop 1).toString with
+    | "f9" => ({ v with f9 := on }, sv) | "f10" => ({ v with f10 := on }, sv)
+    | "f11" => ({ v with f11 := on }, sv) | "f12" => ({ v with f12 := on }, sv)
+    | "f13" => ({ v with f13 := on }, sv) | "f14" => ({ v with f14 := on }, sv)
+    | "f15" => ({ v with f15 := on }, sv) | "f16" => ({ v with f16 := on }, sv)
+    | "vol" => (v, on)
+    | _ => (v, sv)) base
+
+/-! #### documents: `name:S<hex>`, `name:P<hex>+<hex>`, `name:L<hex>,<hex>`, `name:O[e;e]` -/
+
+abbrev P := List Char
+
+def takeHex : P → String × P
+  | cs => let h := cs.takeWhile (fun c => c.isAlphanum || c == '='); (String.ofList h, cs.drop h.length)
+
+partial def parseEntries (cs : P) (close : Bool) : List Spec.Entry × P :=
+  match cs with
+  | [] => ([], [])
+  | ']' :: rest => if close then ([], rest) else ([], rest)
+  | ';' :: rest => parseEntries rest close
+  | _ =>
+    let (nh, cs) := takeHex cs
+    let name := Bytes.ofHex nh
+    match cs with
+    | ':' :: 'S' :: rest =>
+      let (h, rest) := takeHex rest
+      let (es, rest) := parseEntries rest close
+      ((name, .str (Bytes.ofHex h)) :: es, rest)
+    | ':' :: 'P' :: rest =>
+      let (h, rest) := takeHex rest
+      let (s, rest) := takeHex (rest.drop 1)
+      let (es, rest) := parseEntries rest close
+      ((name, .pair (Bytes.ofHex h) (Bytes.ofHex s)) :: es, rest)
+    | ':' :: 'L' :: rest =>
+      let rec items (cs : P) (acc : List Bytes) : List Bytes × P :=
+        let (h, cs') := takeHex cs
+        if h.isEmpty then (acc, cs') else
+        match cs' with
+        | ',' :: r => items r (acc ++ [Bytes.ofHex h])
+        | _ => (acc ++ [Bytes.ofHex h], cs')
+      let (xs, rest) := items rest []
+      let (es, rest) := parseEntries rest close
+      ((name, .list xs) :: es, rest)
+    | ':' :: 'O' :: '[' :: rest =>
+      let (sub, rest) := parseEntries rest true
+      let (es, rest) := parseEntries rest close
+      ((name, .obj sub) :: es, rest)
+    | _ => ([], [])
+
+def parseDoc (s : String) : Spec.Doc := (parseEntries s.toList false).1
+
+/-! #### layout tapes: one character (0-9a-z) per choice, consumed in rendering order -/
+
+def tapeVal (c : Char) : Nat :=
+  if c.isDigit then c.toNat - 48 else if 'a' ≤ c ∧ c ≤ 'z' then c.toNat - 87 else 0
+
+abbrev Tape := List Nat
+
+def pop : Tape → Nat × Tape
+  | [] => (0, [])
+  | x :: xs => (x, xs)
+
+def escOf (n : Nat) : Spec.Esc :=
+  match n % 5 with | 0 => .raw | 1 => .named | 2 => .hex | 3 => .hexU | _ => .bsl
+
+def strLay (t : Tape) (s : Bytes) : Spec.StrLay × Tape :=
+  let (b, t) := pop t
+  if b % 2 == 0 then ({ bare := true, escs := [] }, t)
+  else
+    let es := (t.take s.length).map escOf
+    ({ bare := false, escs := es }, t.drop s.length)
+
+def termOf (n : Nat) : Spec.Term :=
+  match n % 4 with | 0 => .semi | 1 => .nl | 2 => .both | _ => .none
+
+mutual
+partial def valLay (t : Tape) : Spec.Val → Spec.ValLay × Tape
+  | .str s => let (l, t) := strLay t s; (.str l, t)
+  | .pair h s =>
+    let (lh, t) := strLay t h
+    let (g, t) := pop t
+    let (ls, t) := strLay t s
+    (.pair lh g ls, t)
+  | .list xs =>
+    let (p, t) := pop t
+    let (og, t) := pop t
+    let (items, t) := xs.foldl (fun (acc, t) x =>
+      let (g1, t) := pop t
+      let (l, t) := strLay t x
+      let (g2, t) := pop t
+      (acc ++ [(l, g1, g2)], t)) ([], t)
+    let (cg, t) := pop t
+    (.list (p % 2 == 0) og items cg, t)
+  | .obj es =>
+    let (og, t) := pop t
+    let (ls, t) := entLays t es
+    let (cg, t) := pop t
+    (.obj og ls cg, t)
+partial def entLays (t : Tape) : List Spec.Entry → List Spec.EntLay × Tape
+  | [] => ([], t)
+  | (n, v) :: es =>
+    let (pre, t) := pop t
+    let (ln, t) := strLay t n
+    let (sep, t) := pop t
+    let (lv, t) := valLay t v
+    let (pt, t) := pop t
+    let (tm, t) := pop t
+    let (rest, t) := entLays t es
+    ((pre, ln, sep, lv, pt, termOf tm) :: rest, t)
+end
+
+def layoutOfTape (tape : String) (d : Spec.Doc) : Spec.Layout :=
+  let t : Tape := tape.toList.map tapeVal
+  let (ls, t) := entLays t d
+  { entries := ls, post := (pop t).1 }
+
+/-! ### records -/
+
+def kindLetter (k : Nat) : String := match k with | 0 => "s" | 1 => "a" | 2 => "l" | _ => "o"
+def kindOfLetter (s : String) : Nat := match s with | "s" => 0 | "a" => 1 | "l" => 2 | "L" => 2 | _ => 3
+
+def hookText (hs : List HookRec) : String :=
+  if hs.isEmpty then "-" else
+  ",".intercalate (hs.map fun h => kindLetter h.kind ++ ":" ++ "/".intercalate (h.path.map hx))
+
+def listText (xs : List Bytes) : String := if xs.isEmpty then "()" else ",".intercalate (xs.map hx)
+
+def b01 (b : Bool) : String := if b then "1" else "0"
+
+mutual
+partial def dumpNode (depth : Nat) : Node → String
+  | n =>
+    let b := n.base
+    let head := s!" {depth}:{kindLetter n.kind}:{hx b.name}:p{b01 b.present}:s{b01 b.specified}:h{b01 b.hook}:"
+    match n with
+    | .str _ v d sub parsed =>
+      let p := match sub with
+        | .plain => (match parsed with
+            | .zero => "-"
+            | .num k => if k == 0 then "-" else "?"
+            | .ptr x => if v == some x then "v" else "?")
+        | _ => (match parsed with | .zero => "0" | .num k => toString k | .ptr _ => "?")
+      head ++ s!"v={hxo v}:d={hxo d}:t{sub.code}:P={p}"
+    | .inaddr _ h s dh ds =>
+      head ++ s!"v={hxo (h.map (·.val))}+{hxo (s.map (·.val))}:d={hxo dh}+{hxo ds}"
+    | .list _ v cap d => head ++ s!"v={listText v}:d={listText d}:c{b01 cap}"
+    | .obj _ kids => head ++ dumpNodes (depth + 1) kids
+partial def dumpNodes (depth : Nat) : List Node → String
+  | [] => ""
+  | n :: ns => dumpNode depth n ++ dumpNodes depth ns
+end
+
+structure MSt where
+  st : State := {}
+  dead : Bool := false
+
+def parseReg (f : List String) : Option (List Bytes × RegKind × Bool) :=
+  match f with
+  | ["reg", k, path, sub, dflt, hook] =>
+    let p := parsePath path
+    let wh := hook == "hook=1"
+    match k with
+    | "s" => some (p, .str (SubTy.ofCode (sub.toNat?.getD 0)) (Bytes.ofHexOpt dflt), wh)
+    | "a" =>
+      match dflt.splitOn ":" with
+      | [h, s] => some (p, .inaddr (Bytes.ofHexOpt h) (Bytes.ofHexOpt s), wh)
+      | _ => none
+    | "l" | "L" => some (p, .list (if dflt == "-" then [] else (dflt.splitOn ",").map Bytes.ofHex), wh)
+    | "o" => some (p, .obj, wh)
+    | _ => none
+  | _ => none
+
+def modelStep (V : Variant) (sv : Bool) (m : MSt) (line : String) : MSt × String :=
+  if line.startsWith "case " then ({}, line)
+  else if m.dead then (m, "<missing>")
+  else
+    let f := fields line
+    match f with
+    | "props" :: _ => (m, "ok")
+    | "read" :: body :: _ =>
+      match confRead V sv m.st (Bytes.ofHex body) with
+      | .error e => ({ m with dead := true }, s!"fault {repr e}")
+      | .ok (st, o) => ({ m with st }, s!"rc {o.rc} hooks {hookText o.hooks} w={o.warns}")
+    | "reg" :: _ =>
+      match parseReg f with
+      | none => (m, "bad-op")
+      | some (p, rk, wh) =>
+        match confRegister V sv m.st p rk wh with
+        | .error e => ({ m with dead := true }, s!"fault {repr e}")
+        | .ok (st, o) => ({ m with st }, s!"ok hooks {hookText o.hooks} w={o.warns}")
+    | ["hook", k, path] =>
+      match setHook (parsePath path) (kindOfLetter k) m.st.kids with
+      | none => (m, "nonode")
+      | some kids => ({ m with st := { m.st with kids } }, "ok")
+    | ["dump"] =>
+      match readNodes m.st.kids m.st.heap with
+      | .error e => ({ m with dead := true }, s!"fault {repr e}")
+      | .ok _ => (m, "dump" ++ dumpNodes 1 m.st.kids)
+    | ["parse", sub, v] =>
+      let st := SubTy.ofCode (sub.toNat?.getD 0)
+      match st with
+      | .plain | .float => (m, "bad-op")
+      | _ =>
+        let (n, ok) := parseTyped sv st (Bytes.cstr (Bytes.ofHex v))
+        (m, s!"val {n} ok={b01 ok}")
+    | _ => (m, "bad-op")
+
+/-! ### judge plumbing -/
+
+def docField (f : List String) : Option Spec.Doc :=
+  match f.find? (·.startsWith "doc=") with
+  | some d => some (parseDoc (d.drop 4).toString)
+  | none => none
+
+def parseOp (line : String) : Spec.Op :=
+  let f := fields line
+  match f with
+  | "props" :: ps :: _ => .props (ps.splitOn ",")
+  | "read" :: body :: _ => .read (Bytes.ofHex body) (docField f)
+  | "reg" :: _ =>
+    match parseReg f with
+    | some (p, rk, wh) =>
+      let k : Spec.RegKind := match rk with
+        | .str sub d => .str sub.code d
+        | .inaddr a b => .pair a b
+        | .list d => .list d
+        | .obj => .obj
+      .reg ⟨p, k⟩ wh
+    | none => .other
+  | ["hook", k, path] => .hook (kindOfLetter k) (parsePath path)
+  | ["dump"] => .dump
+  | ["parse", sub, v] => .parse (sub.toNat?.getD 0) (Bytes.cstr (Bytes.ofHex v))
+  | _ => .other
+
+def parseHooks (s : String) : List Spec.HookId :=
+  if s == "-" then [] else
+  (s.splitOn ",").map fun h =>
+    match h.splitOn ":" with
+    | [k, p] => (kindOfLetter k, (parsePath p).map Spec.lowerName)
+    | _ => (9, [])
+
+def parseList (s : String) : List Bytes := if s == "()" then [] else (s.splitOn ",").map Bytes.ofHex
+
+/-- one dumped node → (depth, ONode without path) -/
+def parseDumpNode (tok : String) : Option (Nat × Bytes × Spec.ONode) :=
+  match tok.splitOn ":" with
+  | depth :: k :: name :: p :: sp :: _h :: rest =>
+    let kind := kindOfLetter k
+    let val? : Option Spec.OVal := match kind, rest with
+      | 0, [v, d, t, pp] =>
+        let sub := (t.drop 1).toString.toNat?.getD 0
+        let pv := (pp.drop 2).toString
+        let parsed : Spec.TExp := if sub == 0 || sub == 3 then .any else match pv.toNat? with | some n => .value n | none => .reject
+        some (.str (Bytes.ofHexOpt (v.drop 2).toString) (Bytes.ofHexOpt (d.drop 2).toString) sub parsed)
+      | 1, [v, d] =>
+        match (v.drop 2).toString.splitOn "+", (d.drop 2).toString.splitOn "+" with
+        | [h, s], [dh, ds] => some (.pair (Bytes.ofHexOpt h) (Bytes.ofHexOpt s) (Bytes.ofHexOpt dh) (Bytes.ofHexOpt ds))
+        | _, _ => none
+      | 2, [v, d, _c] => some (.list (parseList (v.drop 2).toString) (parseList (d.drop 2).toString))
+      | 3, _ => some .obj
+      | _, _ => none
+    match val? with
+    | some val => some (depth.toNat?.getD 1, Bytes.ofHex name,
+        { path := [], kind, present := p == "p1", specified := sp == "s1", val })
+    | none => none
+  | _ => none
+
+def parseDump (toks : List String) : Option (List Spec.ONode) := Id.run do
+  let mut stack : List Bytes := []
+  let mut out : List Spec.ONode := []
+  for t in toks do
+    match parseDumpNode t with
+    | none => return none
+    | some (depth, name, n) =>
+      stack := stack.take (depth - 1) ++ [Spec.lowerName name]
+      out := out ++ [{ n with path := stack }]
+  return some out
+
+def wField (s : String) : Nat := (s.drop 2).toString.toNat?.getD 0
+
+def parseObs (rec : String) : Spec.Obs :=
+  let f := fields rec
+  match f with
+  | ["rc", n, "hooks", h, w] => .rc (n.toInt?.getD 0) (parseHooks h) (wField w)
+  | ["ok", "hooks", h, w] => .regOk (parseHooks h) (wField w)
+  | ["ok"] => .ok
+  | ["nonode"] => .nonode
+  | "dump" :: toks => match parseDump toks with | some ns => .dump rec ns | none => .other rec
+  | ["val", n, ok] => .val (n.toNat?.getD 0) (ok == "ok=1")
+  | "fault" :: _ => .fault rec
+  | _ => if rec == "<missing>" then .fault rec else .other rec
+
+/-- a `read` that carries a document must carry the text `Spec.render` gives for it
+    (`lay=-`: hand-written text, not checked) -/
+def bodyOk (op : String) : Bool :=
+  let f := fields op
+  match f with
+  | "read" :: body :: _ =>
+    match f.find? (·.startsWith "doc="), f.find? (·.startsWith "lay=") with
+    | some d, some l =>
+      let tape := (l.drop 4).toString
+      tape == "-" || Bytes.ofHex body == Spec.render (parseDoc (d.drop 4).toString) (layoutOfTape tape (parseDoc (d.drop 4).toString))
+    | some d, none => Bytes.ofHex body == Spec.render (parseDoc (d.drop 4).toString) (layoutOfTape "0" (parseDoc (d.drop 4).toString))
+    | _, _ => true
+  | _ => true
+
+def judgeLine (s : Spec.JState) (line : String) : Spec.JState × String :=
+  if line.startsWith "case " then ({ prop := s.prop }, line)
+  else
+    match line.splitOn " => " with
+    | [op, rec] =>
+      if !bodyOk op then (s, "expected the body to be Spec.render of the op's document and layout") else
+      let (s', r) := Spec.Judge.step s (parseOp op) (parseObs rec)
+      match r with
+      | none => (s', rec)
+      | some msg => (s', "expected " ++ msg)
+    | _ => (s, "expected a record")
+
+end Drv.ConfDrv
+
+open Drv Drv.ConfDrv in
+def main (args : List String) : IO UInt32 := do
+  let lines ← readLines
+  let mut out : Array String := Array.mkEmpty lines.size
+  match args with
+  | "model" :: rest =>
+    let (V, sv) := parseVariant (rest.headD "fixed")
+    let mut m : MSt := {}
+    for l in lines do
+      let (m', o) := modelStep V sv m l
+      m := m'
+      out := out.push o
+  | ["judge", p] =>
+    let mut s : Spec.JState := { prop := (p.drop 1).toString.toNat?.getD 15 }
+    for l in lines do
+      let (s', o) := judgeLine s l
+      s := s'
+      out := out.push o
+  | ["render"] =>
+    for l in lines do
+      match fields l with
+      | [d, t] => out := out.push (hx (Spec.render (parseDoc d) (layoutOfTape t (parseDoc d))))
+      | [d] => out := out.push (hx (Spec.render (parseDoc d) {}))
+      | _ => out := out.push "bad-op"
+  | _ =>
+    IO.eprintln "usage: drv_conf model <variant> | judge <Cnn> | render"
+    return 2
+  emit (← IO.getStdout) out
+  return 0
